@@ -1367,7 +1367,9 @@ class LimitDeltas(Algo):
 
     def __call__(self, target):
         tw = target.temp["weights"]
-        all_keys = set(list(target.children.keys()) + list(tw.keys()))
+        # children first, then new targets, in a deterministic order (the order
+        # in which limited weights are added decides the order of the trades)
+        all_keys = list(target.children.keys()) + [k for k in tw.keys() if k not in target.children]
 
         for k in all_keys:
             tgt = tw[k] if k in tw else 0.0
